@@ -43,6 +43,11 @@ CHECKS["C20"] = ("exploration",
  "Every listed iteration form and every generated definition def f: T[f] with T ranging over all nestings (depth <= 3, thorough 4) of 14 tail-position contexts, plain and emitting, nested and mutually nested, is run at n and 8n iterations while the VM footprint (fork stack, data/scope/path stacks live and allocated, register file, frame offset) is read at every single instruction; the peak of every component must be identical at n and 8n. Non-tail controls must show growth, so the probe is known to be sensitive. The no-leak bound of the persistent stacks is checked by the explicit-state stack search shared with C01.",
  "Trusted: the footprint accessor (build tag verif). One known finding: tail calls to another function are not eliminated (attributed by inspecting the compiled code for such a call site).",
  "DESIGN.md §4 C20")
+CHECKS["C05"] = ("exploration",
+ "bounded-exhaustive enumeration of programs x aliased inputs x run histories with deep snapshot comparison",
+ "Every derivation (<= 3 nodes, thorough 4) of a mutation-prone grammar (update, delete, add, sort, slice, accumulate, container constants, variables, ~55 forms), every builtin reported by `builtins` applied with a small argument set, and every corpus query is run on 10 inputs built with aliased substructure, spare capacity filled with sentinels, json.Number and *big.Int leaves, through a fixed set of histories of one *Code: drained three times on the same input object, on a fresh equal copy, abandoned after one output then another input then again, and two live iterators advanced alternately. After every step deep snapshots (including spare capacity) of the input, the variable value, every container constant of the instruction list and every value emitted so far are compared with their originals; output sequences and Marshal bytes of every run are compared with run 1. A run that no longer terminates is a violation too (watchdog).",
+ "Go map iteration order cannot be enumerated by a harness: dependence on it is re-sampled by the repeated runs only. Same-value writes are invisible here (C06).",
+ "DESIGN.md §4 C05")
 NOT_YET = "check not built yet (work in progress in this session); see DESIGN.md for the planned exploration"
 
 def commits():
